@@ -13,6 +13,12 @@ theorem runBody_exc (q : Quirks) (k : Kind) (s : Script) (st : St) :
   unfold runBody raised
   cases s.setup <;> cases s.tdPre <;> cases s.tdPost <;> simp
 
+/-- ... and the `try:` body as a whole ends the way the specification says -/
+theorem tryBody_exc (q : Quirks) (c : Cfg) (s : Script) (st : St) :
+    (tryBody q c s st).2 = ended c s := by
+  unfold tryBody ended
+  cases c.db <;> cases s.dbFails <;> simp [runBody_exc]
+
 /-- everything `run()` leaves alone (current code: no quirk) and the clock moves on -/
 theorem runBody_frame (k : Kind) (s : Script) (st : St) :
     let r := (runBody {} k s st).1
@@ -78,7 +84,7 @@ theorem postPhase_current_snd (c : Cfg) (s : Script) (n : Nat) (st : St) : (post
 
 /-- state when the `finally:` block is done -/
 def finishedState (c : Cfg) (s : Script) : St :=
-  finish c (code c s) (runBody {} c.kind s (dbInsert c (prePhase {} c s).1)).1
+  finish c (code c s) (tryBody {} c s (prePhase {} c s).1).1
 
 /-- state after the post-hook and the release of the lock -/
 def endState (c : Cfg) (s : Script) : St :=
@@ -88,7 +94,7 @@ def endState (c : Cfg) (s : Script) : St :=
 def startTick (c : Cfg) (s : Script) : Nat := (prePhase {} c s).1.tick
 
 /-- logical time at which the `finally:` block takes `run_meta.end_time` -/
-def stopTick (c : Cfg) (s : Script) : Nat := (runBody {} c.kind s (dbInsert c (prePhase {} c s).1)).1.tick
+def stopTick (c : Cfg) (s : Script) : Nat := (tryBody {} c s (prePhase {} c s).1).1.tick
 
 theorem startTick_pos (c : Cfg) (s : Script) : 0 < startTick c s := by
   unfold startTick prePhase
@@ -98,13 +104,14 @@ theorem start_lt_stop (c : Cfg) (s : Script) : startTick c s < stopTick c s := b
   have h := runBody_tick c.kind s (dbInsert c (prePhase {} c s).1)
   have h2 : (prePhase {} c s).1.tick ≤ (dbInsert c (prePhase {} c s).1).tick := by
     unfold dbInsert; cases c.db <;> simp [St.step]
-  unfold startTick stopTick; omega
+  unfold startTick stopTick tryBody
+  cases c.db <;> cases s.dbFails <;> simp [St.step] at * <;> omega
 
 /-- `entry_point` of the current code always returns, with the documented code, from `endState` -/
 theorem entryPoint_eq (c : Cfg) (s : Script) :
     entryPoint c s = (endState c s).final (.ret (code c s)) := by
   simp [entryPoint, entryPointQ, endState, finishedState, code, prePhase_current_snd, postPhase_current_snd,
-    runBody_exc, mapExit_current]
+    tryBody_exc, mapExit_current]
 
 /-- every field of the outcome in closed form -/
 theorem entryPoint_fields (c : Cfg) (s : Script) :
@@ -113,25 +120,55 @@ theorem entryPoint_fields (c : Cfg) (s : Script) :
     f.exit = .ret x ∧ f.lockReleased = true ∧ f.logClosed = true ∧ f.dbClosed = true ∧
     f.preRan = c.hooks ∧ f.reports = failing c s ∧
     f.metaFile = (if c.art then some ⟨x, 0, stopTick c s⟩ else none) ∧
-    f.dbRow = (if c.db then .done (startTick c s) (stopTick c s + 1) x else .absent) ∧
-    f.postEnv = (if c.hooks then some ⟨x, x, stopTick c s⟩ else none) ∧
-    f.transportClosed = !(c.kind.isScanner && (s.setup.isSome || s.tdPre.isSome)) := by
+    f.dbRow = (if c.db && !s.dbFails then .done (startTick c s) (stopTick c s + 1) x else .absent) ∧
+    f.postEnv = (if c.hooks then some ⟨x, x, stopTick c s⟩ else none) := by
   rw [entryPoint_eq]
-  cases hl : c.lock <;> cases hh : c.hooks <;> cases ha : c.art <;> cases hd : c.db <;>
-    cases hp : s.preFails <;> cases hq : s.postFails <;> cases hk : c.kind.isScanner <;>
-  simp [St.final, endState, finishedState, unlock, postPhase, finish, dbInsert, prePhase, runHook, St.obs, St.step,
-    startTick, stopTick, failing, runBody_transportOpen, hl, hh, ha, hd, hp, hq, hk]
+  cases hl : c.lock <;> cases hh : c.hooks <;> cases ha : c.art <;> cases hd : c.db <;> cases hf : s.dbFails <;>
+    cases hp : s.preFails <;> cases hq : s.postFails <;>
+  simp [St.final, endState, finishedState, unlock, postPhase, finish, tryBody, dbInsert, prePhase, runHook, St.obs,
+    St.step, startTick, stopTick, failing, hl, hh, ha, hd, hf, hp, hq]
+
+theorem prePhase_transportOpen (c : Cfg) (s : Script) : (prePhase {} c s).1.transportOpen = false := by
+  unfold prePhase runHook
+  cases c.lock <;> cases c.art <;> cases c.hooks <;> cases s.preFails <;> simp [St.obs, St.step]
+
+theorem finish_transportOpen (c : Cfg) (n : Nat) (st : St) : (finish c n st).transportOpen = st.transportOpen := by
+  unfold finish
+  cases h : st.dbConn <;> cases c.art <;> simp [St.step, h]
+
+theorem postPhase_transportOpen (c : Cfg) (s : Script) (n : Nat) (st : St) :
+    (postPhase {} c s n st).1.transportOpen = st.transportOpen := by
+  unfold postPhase runHook
+  cases c.hooks <;> cases s.postFails <;> simp [St.obs]
+
+theorem unlock_transportOpen (c : Cfg) (st : St) : (unlock c st).transportOpen = st.transportOpen := by
+  unfold unlock; cases c.lock <;> simp [St.step]
+
+theorem tryBody_transportOpen (c : Cfg) (s : Script) (st : St) :
+    (tryBody {} c s st).1.transportOpen =
+      if c.db && s.dbFails then st.transportOpen
+      else if c.kind.isScanner then (s.setup.isSome || s.tdPre.isSome) else st.transportOpen := by
+  unfold tryBody dbInsert
+  cases c.db <;> cases s.dbFails <;> simp [runBody_transportOpen, St.step]
+
+theorem entryPoint_transport (c : Cfg) (s : Script) :
+    (entryPoint c s).transportClosed =
+      !(!(c.db && s.dbFails) && c.kind.isScanner && (s.setup.isSome || s.tdPre.isSome)) := by
+  rw [entryPoint_eq]
+  simp only [St.final, endState, finishedState, unlock_transportOpen, postPhase_transportOpen, finish_transportOpen,
+    tryBody_transportOpen, prePhase_transportOpen]
+  cases c.db <;> cases s.dbFails <;> cases c.kind.isScanner <;> simp
 
 /-- the observable trace in closed form: the lock is held at every action, META.json exists only for the post-hook -/
 theorem entryPoint_trace (c : Cfg) (s : Script) :
     (entryPoint c s).trace =
       (if c.hooks then [⟨.pre, c.lock, false⟩] else []) ++
-      (bodyActs c.kind s).map (fun a => ⟨a, c.lock, false⟩) ++
+      (if c.db && s.dbFails then [] else (bodyActs c.kind s).map (fun a => ⟨a, c.lock, false⟩)) ++
       (if c.hooks then [⟨.post, c.lock, c.art⟩] else []) := by
   rw [entryPoint_eq]
-  cases hl : c.lock <;> cases hh : c.hooks <;> cases ha : c.art <;> cases hd : c.db <;>
+  cases hl : c.lock <;> cases hh : c.hooks <;> cases ha : c.art <;> cases hd : c.db <;> cases hf : s.dbFails <;>
     cases hp : s.preFails <;> cases hq : s.postFails <;>
-  simp [St.final, endState, finishedState, unlock, postPhase, finish, dbInsert, prePhase, runHook, St.obs, St.step,
-    runBody_trace, hl, hh, ha, hd, hp, hq]
+  simp [St.final, endState, finishedState, unlock, postPhase, finish, tryBody, dbInsert, prePhase, runHook, St.obs,
+    St.step, runBody_trace, hl, hh, ha, hd, hf, hp, hq]
 
 end Gallia.Lifecycle
